@@ -35,7 +35,8 @@ _LIFETIME = re.compile(r"'[a-z_][a-z0-9_]*\b(?!')(, | )?")
 
 
 def strip_lifetimes(s):
-    s = re.sub(r"<'[a-z_][a-z0-9_]*>", '', s)
+    s = re.sub(r"::<'[a-z_][a-z0-9_]*(, '[a-z_][a-z0-9_]*)*>", '', s)
+    s = re.sub(r"<'[a-z_][a-z0-9_]*(, '[a-z_][a-z0-9_]*)*>", '', s)
     s = re.sub(r"'[a-z_][a-z0-9_]*, ", '', s)
     s = re.sub(r"&'[a-z_][a-z0-9_]* ", '&', s)
     s = re.sub(r"'[a-z_][a-z0-9_]*\b ?", '', s)
@@ -391,6 +392,9 @@ class Path:
         self.max_steps = cfg.get('max_steps', 2_000_000)
         self.max_depth = cfg.get('max_depth', 60)
         self.state = {}         # scratch for environment models (fs etc.)
+        from .models import util as _u
+        _u.DOMAINS.clear()
+        _u.RANGES.clear()
         self.trace = cfg.get('trace', False)
 
     # -- symbols -----------------------------------------------------------
